@@ -9,7 +9,7 @@ rules evaluate extracted index expressions.  Anything outside the pure fragment 
 needed, an unevaluable condition) ends the evaluation as `unknown`, which the rules report as analysis-broken,
 never as a violation.
 """
-from .prog import is_e, strip, key, walk, show, evalx, EvalError, callee_name
+from .prog import is_e, strip, key, walk, show, evalx, EvalError, callee_name, tevalx, texpr_type, _conv
 
 
 def normx(e):
@@ -142,7 +142,11 @@ def _run1(fn, start, env, stop_pred, P, call_value, max_steps, exit_blocks, fork
                 pass
         return r
 
+    typed = bool(env.get("#typed"))
+
     def ev(e):
+        if typed:
+            return tevalx(conc(normx(e)), env, P, fn)
         return evalx(conc(normx(e)), env, P)
 
     def setv(lhs, v):
@@ -155,6 +159,10 @@ def _run1(fn, start, env, stop_pred, P, call_value, max_steps, exit_blocks, fork
             env.pop(k, None)
             unknown.add(k)
         else:
+            if typed:
+                lt = texpr_type(l, fn, P)
+                if lt:
+                    v = _conv(v, lt)
             env[k] = v
             unknown.discard(k)
 
@@ -271,6 +279,11 @@ def _run1(fn, start, env, stop_pred, P, call_value, max_steps, exit_blocks, fork
                     elif rv is None:
                         env.pop(e[1], None)
                     else:
+                        if typed:
+                            from .prog import _tyinfo
+                            dt = _tyinfo(e[2])
+                            if dt:
+                                rv = _conv(rv, dt)
                         env[e[1]] = rv
                 elif k == "ret":
                     return Outcome("ret", el, env, trace)
